@@ -215,7 +215,7 @@ theorem matching_sections_mem (noName : Option (List (Str × Str))) (secs : List
       (∃ o, noName = some o ∧ m = (0, [], (⟨none, o, location, []⟩ : LocSection))) ∨
       (∃ p ∈ secs, compsMatch (parts location) p.comps = true ∧
         m = (p.comps.length, p.id,
-          (⟨some p.id, p.opts, extraPath (parts location) p.comps.length, urlBasename location⟩ : LocSection))) := by
+          (⟨some p.id, p.opts, extraPath (parts location) p.comps.length, branchOf location⟩ : LocSection))) := by
   unfold matchingSections
   rw [List.mem_append, iter_by_parts_spec]
   constructor
